@@ -17,7 +17,7 @@ from . import ops as O
 from .ops import And, Or, Not, ite, Implies
 from .tensor import Tn, Cell, Unsupported, basic_index, norm_slice
 from .values import (SymRaise, PathEnd, SStr, DType, Opaque, LibFn, BoundMethod, RepoFn, PyType,
-                     Iter, CatList, StackList, UNDEF, ModuleRef)
+                     Iter, CatList, StackList, UNDEF, ModuleRef, StarAbstract)
 
 
 class Obligation:
@@ -228,6 +228,30 @@ class Env(dict):
     pass
 
 
+def loop_ordinals(fd):
+    """static numbering of the for/while statements of a function in source order (1-based);
+    comprehensions do not count, nested function definitions are skipped"""
+    out = {}
+    n = [0]
+
+    def visit(stmts):
+        for st in stmts:
+            if isinstance(st, (ast.For, ast.While)):
+                n[0] += 1
+                out[id(st)] = n[0]
+            if isinstance(st, (ast.FunctionDef, ast.ClassDef)):
+                continue
+            for fld in ('body', 'orelse', 'finalbody'):
+                sub = getattr(st, fld, None)
+                if isinstance(sub, list):
+                    visit(sub)
+            if isinstance(st, ast.Try):
+                for h in st.handlers:
+                    visit(h.body)
+    visit(fd.body)
+    return out
+
+
 class EnvView:
     """attribute access to the variables of a frame (what invariants are written against)"""
 
@@ -311,6 +335,7 @@ class Interp:
         fd = self.get_ast(pyfn)
         env = self.bind_args(fd, pyfn, args, kwargs)
         fr = Frame(self, env, pyfn, qualname)
+        fr.loop_ids = loop_ordinals(fd)
         old_safety = self.ctx.safety
         if self.world.is_numba(pyfn, fd):
             self.ctx.safety = True
@@ -334,6 +359,7 @@ class Frame:
         self.pyfn = pyfn
         self.qualname = qualname
         self.loop_ord = 0
+        self.loop_ids = {}
         self.globals = getattr(pyfn, '__globals__', {}) if pyfn is not None else {}
 
     # ------------------------------------------------------------------ statements
@@ -562,7 +588,7 @@ class Frame:
 
     # ------------------------------------------------------------------ loops
     def st_While(self, st):
-        self.loop_ord += 1
+        self.loop_ord = self.loop_ids.get(id(st), -1)
         spec = self.I.world.loop_spec(self.qualname, self.loop_ord)
         if spec is None:
             # concrete unrolling
@@ -587,7 +613,7 @@ class Frame:
         self.cut_loop(st, spec, None, None)
 
     def st_For(self, st):
-        self.loop_ord += 1
+        self.loop_ord = self.loop_ids.get(id(st), -1)
         myord = self.loop_ord
         it = self.ev(st.iter)
         seq = self.as_sequence(it)
@@ -648,7 +674,7 @@ class Frame:
     def havoc_value(self, name, v, spec, tag):
         kind = (spec.abstract or {}).get(name)
         if kind is not None and not isinstance(kind, str):
-            return kind(self, v, tag)
+            return kind(self, v, spec.it)
         if isinstance(v, bool):
             return O.fresh_bool(name)
         if isinstance(v, int):
@@ -730,12 +756,14 @@ class Frame:
             ctx.oblige("%s/init:%s" % (lname, label), f, 'loop-init')
         # 2. havoc
         it = O.fresh_int('it')
+        spec.it = it
+        ctx.assume(it >= 0)
         pre_env = dict(self.env)
         for nme in sorted(bound):
             if nme in self.env:
                 self.env[nme] = self.havoc_value(nme, self.env[nme], spec, 'h')
             elif spec.abstract and nme in spec.abstract and not isinstance(spec.abstract[nme], str):
-                self.env[nme] = spec.abstract[nme](self, UNDEF, 'h')
+                self.env[nme] = spec.abstract[nme](self, UNDEF, it)
         for nme in sorted(mutated):
             if nme in self.env and nme not in bound:
                 v = self.env[nme]
@@ -755,7 +783,7 @@ class Frame:
         if which == 0:
             # (a) arbitrary iteration
             if is_for:
-                ctx.assume(it < count)
+                ctx.assume(seq.has(it) if seq.has is not None else it < count)
                 if getattr(seq, 'items', None) is not None:
                     raise Unsupported("cut loop over heterogeneous concrete list")
                 if seq.ghost is not None:
@@ -783,7 +811,10 @@ class Frame:
             raise PathEnd()
         # (b) after the loop
         if is_for:
-            ctx.assume(O.eq(it, ite(count < 0, 0, count) if O.is_sym(count) else max(count, 0)))
+            if seq.done is not None:
+                ctx.assume(seq.done(it))
+            else:
+                ctx.assume(O.eq(it, ite(count < 0, 0, count) if O.is_sym(count) else max(count, 0)))
             if spec.after is not None:
                 spec.after(EnvView(self.env, {'it': it, 'count': count, 'old': spec.old_env, 'fr': self}), self)
         else:
@@ -1246,7 +1277,11 @@ class Frame:
         args = []
         for a in e.args:
             if isinstance(a, ast.Starred):
-                args.extend(self.as_list(self.ev(a.value)))
+                sv = self.ev(a.value)
+                if isinstance(sv, (CatList, StackList)):
+                    args.append(StarAbstract(sv))
+                    continue
+                args.extend(self.as_list(sv))
             else:
                 args.append(self.ev(a))
         kwargs = {}
